@@ -44,6 +44,72 @@ Theorem capture_effect : forall fails s h1 h2,
 Proof. exact capture_effect_l. Qed.
 Print Assumptions capture_effect.
 
+(* AFTER the creation.  Objects are numbered in creation order: the lazy inverses (NewInverse) and
+   whatever is derived from an object - an expression holding it that is reduced (Derive DReduce), a
+   pytree round trip (Derive DRoundTrip), .I.I (Derive DInvInv: a new lazy inverse).  `prov h` gives
+   for every object the position in h of the creation event it stems from (the NewInverse at the
+   root of any chain of reductions / round trips; the .I.I itself).  Whatever happens between the
+   creation and the application, and whatever the route of application - eager, jitted closure,
+   ARGUMENT of a jitted function whose cache compares the static configuration with
+   ConfigState.__eq__, generic as_matrix - the configuration used is the one that was active just
+   before that creation event. *)
+Theorem capture_everywhere : forall s h r j p, invs s = [] ->
+  nth_error (prov h) j = Some p ->
+  observe s (h ++ [ApplyVia r j]) = observe s h ++ [Some (cur (final s (firstn p h)))].
+Proof. exact capture_everywhere_l. Qed.
+Print Assumptions capture_everywhere.
+Theorem capture_everywhere_effect : forall fails s h r j p, invs s = [] ->
+  nth_error (prov h) j = Some p ->
+  effects fails (observe s (h ++ [ApplyVia r j])) =
+  effects fails (observe s h) ++ [Some (mv fails (cur (final s (firstn p h))))].
+Proof. exact capture_everywhere_effect_l. Qed.
+Print Assumptions capture_everywhere_effect.
+(* every object has a provenance, and stores the configuration of its provenance *)
+Theorem provenance : forall s h, invs s = [] ->
+  length (prov h) = length (invs (final s h)) /\
+  forall j p, nth_error (prov h) j = Some p ->
+    (p < length h)%nat /\ nth_error (invs (final s h)) j = Some (cur (final s (firstn p h))).
+Proof. exact provenance_l. Qed.
+Print Assumptions provenance.
+(* one step spelled out: reducing an expression that holds object i / a round trip, under ANY active
+   configuration, yields an object with the configuration of object i; .I.I is a new creation *)
+Theorem derive_keeps : forall s h d i c, d <> DInvInv ->
+  nth_error (invs (final s h)) i = Some c ->
+  invs (final s (h ++ [Derive d i])) = invs (final s h) ++ [c].
+Proof. exact derive_keeps_l. Qed.
+Theorem inv_inv_is_new : forall s h i c,
+  nth_error (invs (final s h)) i = Some c ->
+  invs (final s (h ++ [Derive DInvInv i])) = invs (final s h) ++ [cur (final s h)].
+Proof. exact inv_inv_is_new_l. Qed.
+(* every route observes what is stored for the object (the jit cache cannot substitute another
+   configuration) ... *)
+Theorem every_route_uses_the_stored_configuration : forall s h r j,
+  observe s (h ++ [ApplyVia r j]) = observe s h ++ [nth_error (invs (final s h)) j].
+Proof. exact apply_via_l. Qed.
+Print Assumptions every_route_uses_the_stored_configuration.
+(* ... because ConfigState equality compares every field: a cache hit hands back the configuration
+   itself; with solver_options out of the comparison it would not *)
+Theorem configstate_eq_is_identity : forall a b, cfg_eqb a b = true <-> a = b.
+Proof. exact cfg_eqb_sound_l. Qed.
+Theorem jit_cache_hit_is_own_configuration : forall (eqb : cfg -> cfg -> bool) fn c cache c',
+  (forall a b, eqb a b = true -> a = b) -> jit_lookup eqb fn c cache = Some c' -> c' = c.
+Proof. exact jit_lookup_sound_l. Qed.
+Example equality_ignoring_a_field_conflates :
+  jit_lookup eqb_ignoring_options 0 (mkCfg 0 0 1 0) [(0%nat, mkCfg 0 0 0 0)] = Some (mkCfg 0 0 0 0).
+Proof. exact jit_lookup_unsound_example_l. Qed.
+
+(* non-vacuity: an inverse created with options 2 in a block; after the block its composition is
+   reduced inside ANOTHER block (callback 3), round-tripped under the defaults, then .I.I under
+   solver 1; two inverses that differ in solver_options only go through the same jitted function *)
+Example derived_example :
+  let h := [Enter [(SOptions, 2%Z)]; NewInverse; Exit; Enter [(SCallback, 3%Z)]; Derive DReduce 0; Exit;
+            Derive DRoundTrip 1; Enter [(SSolver, 1%Z)]; Derive DInvInv 2; Exit; NewInverse;
+            ApplyVia (RJitArg 0) 4; ApplyVia (RJitArg 0) 2; ApplyVia RMatrix 3; ApplyVia (RJitArg 0) 0] in
+  well_nested h /\ prov h = [1; 1; 1; 8; 10]%nat /\
+  observe init h = [None; None; None; None; None; None; None; None; None; None; None;
+                    Some default_cfg; Some (mkCfg 0 0 2 0); Some (mkCfg 1 0 0 0); Some (mkCfg 0 0 2 0)].
+Proof. repeat split; reflexivity. Qed.
+
 (* The effect distinguishes every individual setting (so the correspondence on effects checks each
    field of the captured record, not the record as a blob): a returned value identifies solver,
    options and callback; an exception means exactly "the solve failed and solver_throw is set"; a
